@@ -54,18 +54,24 @@ Proof.
   - intros d Hd. destruct (K8 d Hd) as [H|(rq & Ho & Ht & _)]; [exact H|]. exfalso. exact (Hno rq Ho Ht).
 Qed.
 
+Hypothesis Hwfd : wf_disc rules.
+
 (* the clean value of a rule is the conclusion of a row whose recorded inputs hold their clean values *)
-Lemma concl_of_clean s t v : Some v = cvK t -> (forall x, In x (r_req (rules t) ++ bkK t) -> In (mkDep x false false) (deps s t) /\ stored s x = cvK x) ->
+Lemma concl_of_clean s t v : Some v = cvK t ->
+  (forall x, In x (r_req (rules t) ++ bkK t ++ r_disc (rules t)) -> In (mkDep x false false) (deps s t) /\ stored s x = cvK x) ->
   concl s t v /\ (r_obs (rules t) = false -> snd v = 0).
 Proof.
   intros Hv Hin. unfold ImplVal1.cvK in Hv. rewrite (cvk_unfold rules env F rank Hrank t) in Hv. cbn zeta in Hv. inversion Hv as [Hv']. clear Hv.
   assert (Hreq : map (stored s) (r_req (rules t)) = map cvK (r_req (rules t))).
   { apply map_ext_in. intros x Hx. apply Hin. apply in_or_app. now left. }
   assert (Hbk : branch_keys (rules t) (map (stored s) (r_req (rules t))) = bkK t) by (rewrite Hreq; reflexivity).
+  assert (Hdc : map (fun d => snd (payload_of (stored s d))) (r_disc (rules t)) = map env (r_disc (rules t))).
+  { apply map_ext_in. intros x Hx. destruct (Hin x) as [_ ->]; [apply in_or_app; right; apply in_or_app; now right|].
+    unfold ImplVal1.cvK. rewrite (cvk_unfold rules env F rank Hrank x). cbn [payload_of snd]. unfold obs. now rewrite (Hwfd t x Hx). }
   split.
-  - unfold ImplInc1.concl. cbn zeta. rewrite Hbk. split.
-    + cbn [fst snd]. rewrite Hdisc. cbn [map]. f_equal. rewrite map_app, Hreq.
-      assert (Hb2 : map (stored s) (bkK t) = map cvK (bkK t)) by (apply map_ext_in; intros x Hx; apply Hin; apply in_or_app; now right).
+  - unfold ImplInc1.concl. cbn zeta. rewrite Hbk, Hdc. split.
+    + cbn [fst snd]. f_equal. rewrite map_app, Hreq.
+      assert (Hb2 : map (stored s) (bkK t) = map cvK (bkK t)) by (apply map_ext_in; intros x Hx; apply Hin; apply in_or_app; right; apply in_or_app; now left).
       rewrite Hb2, !map_map. f_equal.
     + intros x Hx. now apply Hin.
   - intros Ho. cbn [snd]. unfold obs. now rewrite Ho.
@@ -78,13 +84,13 @@ Record fin_eff (s s' : istate) (t : key) (ti : tinfo) (rest : list key) : Prop :
   fe_k : kind_of s t = KComputing;
   fe_kind : forall k, kind_of s' k = if N.eqb k t then KComplete else kind_of s k;
   fe_res : forall k, k <> t -> res_of s' k = res_of s k;
-  fe_self : stored s' t = stored s t /\ cAt s' t = cAt s t /\ bAt s' t = is_epoch s /\ deps s' t = deps s t /\ res_sig (res_of s' t) = res_sig (res_of s t);
+  fe_self : stored s' t = stored s t /\ cAt s' t = cAt s t /\ bAt s' t = is_epoch s /\ deps s' t = deps s t ++ map mkd (r_disc (rules t)) /\ res_sig (res_of s' t) = res_sig (res_of s t);
   fe_lists : forall k, ri_paused (rinfo_of s' k) = ri_paused (rinfo_of s k) /\ ri_deferred (rinfo_of s' k) = ri_deferred (rinfo_of s k) /\
                        ri_cancelled (rinfo_of s' k) = ri_cancelled (rinfo_of s k);
   fe_tasks : forall t0, task_of s' t0 = if N.eqb t0 t then None else task_of s t0;
   fe_toscan : is_toscan s' = rev (ti_deferred ti) ++ is_toscan s;
   fe_fininreq : is_fininreq s' = rev (ti_reqby ti) ++ is_fininreq s;
-  fe_inreq : is_inreq s' = is_inreq s;
+  fe_inreq : is_inreq s' = is_inreq s ++ map dummy_of (map mkd (r_disc (rules t)));
   fe_fintasks : is_fintasks s' = rest;
   fe_udb : is_usedb s' = false;
   fe_ep : is_epoch s' = is_epoch s;
@@ -104,16 +110,16 @@ Proof.
   pose proof (finish_task_rinfo_nodb s t rest ti) as RI. destruct (finish_task_misc_nodb s t rest ti V2 Hg Hk) as (Mu & Me).
   set (s' := finish_task (upd_fintasks s rest) t) in *.
   destruct R as [rt_nd0 rt_kind0 rt_paused0 rt_deferred0 rt_deps0 rt_sum_p0 rt_sum_d0 rt_tasks0 rt_toscan0 rt_fininreq0 rt_inreq0 rt_dummies0 rt_ready0 rt_fintasks0 rt_out0 rt_nf0].
-  assert (Hnd : ti_disc ti = []) by (apply (k2_nodisc _ _ _ _ _ _ _ (b_task _ _ _ _ _ _ HBT t ti Hg))).
+  assert (Hnd : ti_disc ti = map mkd (r_disc (rules t))) by (apply (k2_disc _ _ _ _ _ _ _ (b_task _ _ _ _ _ _ HBT t ti Hg)); rewrite Hq; now left).
   assert (Hw0 : ti_wait ti = 0%nat) by (apply (t_cw ctx0 s HT t ti Hg Hk)).
   assert (Hz : (cnt_i t (cx_fi ctx0) + outstanding_count s t = 0)%nat) by (rewrite <- (i_wc rules ctx0 s HII t ti Hg); exact Hw0).
   destruct (no_ireq_of s t (cx_fi ctx0) Hz (t_nd_rules ctx0 s HT) (t_nd_tasks ctx0 s HT)) as (_ & Z2 & Z3 & Z4 & Z5).
   constructor; auto.
   - intros k Hne. unfold res_of. rewrite (RI k V2 Hg Hk). apply N.eqb_neq in Hne. now rewrite Hne.
-  - unfold stored, cAt, bAt, deps, res_of. rewrite (RI t V2 Hg Hk), N.eqb_refl, Hnd. cbn. rewrite app_nil_r. auto.
+  - unfold stored, cAt, bAt, deps, res_of. rewrite (RI t V2 Hg Hk), N.eqb_refl, Hnd. cbn. auto.
   - intros k. rewrite (RI k V2 Hg Hk). destruct (N.eqb k t) eqn:E; auto. apply N.eqb_eq in E. subst k. auto.
   - intros t0. unfold task_of. rewrite rt_tasks0, aget_adel. reflexivity.
-  - rewrite rt_inreq0, Hnd. cbn [map]. apply app_nil_r.
+  - rewrite rt_inreq0, Hnd. reflexivity.
   - apply rt_fintasks0.
   - intros rq [[H|(k & H)]|[(t0 & y & Hy & Hin)|H]]; [now apply Z2|eapply Z3; eauto|eapply Z4; eauto|now apply Z5].
   - intros rq Hin. apply (i_pl_reqby rules ctx0 s HII t ti rq Hg Hin).
@@ -140,23 +146,37 @@ Lemma fe_stored k : stored s' k = stored s k.
 Proof. destruct (N.eq_dec k t) as [->|Hne]; [apply (fe_self _ _ _ _ _ E)|unfold stored; now rewrite (fe_res _ _ _ _ _ E k Hne)]. Qed.
 Lemma fe_cAt k : cAt s' k = cAt s k.
 Proof. destruct (N.eq_dec k t) as [->|Hne]; [apply (fe_self _ _ _ _ _ E)|unfold cAt; now rewrite (fe_res _ _ _ _ _ E k Hne)]. Qed.
-Lemma fe_deps k : deps s' k = deps s k.
-Proof. destruct (N.eq_dec k t) as [->|Hne]; [apply (fe_self _ _ _ _ _ E)|unfold deps; now rewrite (fe_res _ _ _ _ _ E k Hne)]. Qed.
-Lemma fe_unrouted rq : Unrouted s rq <-> Unrouted s' rq.
-Proof. apply Unrouted_same; [apply (fe_inreq _ _ _ _ _ E)|intros k; apply (fe_lists _ _ _ _ _ E)]. Qed.
+Lemma fe_deps k : k <> t -> deps s' k = deps s k.
+Proof. intros Hne. unfold deps. now rewrite (fe_res _ _ _ _ _ E k Hne). Qed.
+Lemma fe_deps_t : deps s' t = deps s t ++ map mkd (r_disc (rules t)).
+Proof. apply (fe_self _ _ _ _ _ E). Qed.
+Lemma fe_U1 rq : Unrouted s rq -> Unrouted s' rq.
+Proof.
+  intros [H|(k & H)]; [left; rewrite (fe_inreq _ _ _ _ _ E); apply in_or_app; now left|right; exists k; now rewrite (proj1 (fe_lists _ _ _ _ _ E k))].
+Qed.
+Lemma fe_U2 rq : Unrouted s' rq -> Unrouted s rq \/ iq_task rq = None.
+Proof.
+  intros [H|(k & H)]; [|left; right; exists k; now rewrite <- (proj1 (fe_lists _ _ _ _ _ E k))].
+  rewrite (fe_inreq _ _ _ _ _ E) in H. apply in_app_or in H. destruct H as [H|H]; [left; now left|right].
+  apply in_map_iff in H. destruct H as (d & <- & _). reflexivity.
+Qed.
+Lemma fe_dummy y : In y (r_disc (rules t)) -> pending_dummy s' y.
+Proof.
+  intros Hy. exists (dummy_of (mkd y)). split; [|split; reflexivity]. left. rewrite (fe_inreq _ _ _ _ _ E). apply in_or_app. right. apply in_map. now apply in_map.
+Qed.
 Lemma fe_O1 rq : Oreq2 s rq -> Oreq2 s' rq.
 Proof.
-  intros [H|[(t0 & y & Hy & Hin)|H]]; [left; now apply fe_unrouted| |right; right; rewrite (fe_fininreq _ _ _ _ _ E); apply in_or_app; now right].
+  intros [H|[(t0 & y & Hy & Hin)|H]]; [left; now apply fe_U1| |right; right; rewrite (fe_fininreq _ _ _ _ _ E); apply in_or_app; now right].
   destruct (N.eq_dec t0 t) as [->|Hne].
   - right. right. rewrite (fe_fininreq _ _ _ _ _ E). apply in_or_app. left. apply -> in_rev. rewrite (fe_g _ _ _ _ _ E) in Hy. now inversion Hy.
   - right. left. exists t0, y. rewrite (fe_tasks _ _ _ _ _ E). apply N.eqb_neq in Hne. rewrite Hne. auto.
 Qed.
-Lemma fe_O2 rq : Oreq2 s' rq -> Oreq2 s rq.
+Lemma fe_O2 rq : Oreq2 s' rq -> Oreq2 s rq \/ iq_task rq = None.
 Proof.
-  intros [H|[(t0 & y & Hy & Hin)|H]]; [left; now apply fe_unrouted| |].
-  - rewrite (fe_tasks _ _ _ _ _ E) in Hy. destruct (N.eqb t0 t); [discriminate|]. right. left. eauto.
-  - rewrite (fe_fininreq _ _ _ _ _ E) in H. apply in_app_or in H. destruct H as [H|H]; [|right; right; exact H].
-    apply in_rev in H. right. left. exists t, ti. split; auto. apply (fe_g _ _ _ _ _ E).
+  intros [H|[(t0 & y & Hy & Hin)|H]]; [destruct (fe_U2 rq H); [left; now left|now right]| |].
+  - rewrite (fe_tasks _ _ _ _ _ E) in Hy. destruct (N.eqb t0 t); [discriminate|]. left. right. left. eauto.
+  - rewrite (fe_fininreq _ _ _ _ _ E) in H. apply in_app_or in H. destruct H as [H|H]; [|left; right; right; exact H].
+    apply in_rev in H. left. right. left. exists t, ti. split; auto. apply (fe_g _ _ _ _ _ E).
 Qed.
 
 Lemma BT_fin : BT root s'.
@@ -169,7 +189,8 @@ Proof.
   - now rewrite (fe_ep _ _ _ _ _ E).
   - intros k Hc. rewrite fe_stored. destruct (fe_curk2 k Hc) as [->|H]; [|now apply T3].
     apply (k2_fin _ _ _ _ _ _ _ (T6 t ti (fe_g _ _ _ _ _ E))). rewrite (fe_q _ _ _ _ _ E). now left.
-  - intros rq Ho. pose proof (fe_O2 rq Ho) as Ho'. destruct (T4 rq Ho') as [Hw Hsg]. split; auto.
+  - intros rq Ho. destruct (fe_O2 rq Ho) as [Ho'|Hd]; [|split; intros t0 Ht0; congruence].
+    destruct (T4 rq Ho') as [Hw Hsg]. split; auto.
     intros t0 Ht0 Hord. destruct (Hw t0 Ht0 Hord) as (H1 & y & Hy & Hl). split; auto. exists y. split; auto.
     rewrite (fe_tasks _ _ _ _ _ E). destruct (N.eqb t0 t) eqn:E0; auto. apply N.eqb_eq in E0. subst t0. exfalso. exact (fe_no _ _ _ _ _ E rq Ho' Ht0).
   - intros rq Hin. rewrite (fe_fininreq _ _ _ _ _ E) in Hin. apply in_app_or in Hin. destruct Hin as [Hin|Hin]; [|now apply fe_curk1, T5].
@@ -181,13 +202,18 @@ Proof.
     + exact J4.
     + exact J5.
     + rewrite (fe_fintasks _ _ _ _ _ E), fe_stored. intros Hin. apply J6. rewrite (fe_q _ _ _ _ _ E). now right.
-    + intros i z Hu0 Hi Hz. rewrite fe_deps. destruct (J7 i z Hu0 Hi Hz) as [(w & Hw1 & Hw2)|Hr]; [left; exists w; split; [now apply fe_unrouted|auto]|now right].
-    + intros d. rewrite fe_deps. intros Hd. destruct (J8 d Hd) as [H|(w & Hw1 & Hw2)]; [left; now apply fe_curk1|right; exists w; split; auto; now apply fe_O1].
-    + intros d. rewrite fe_deps. apply J9.
-    + exact J10.
-    + rewrite (fe_fintasks _ _ _ _ _ E), (fe_res _ _ _ _ _ E t0 Hne). intros Hin. apply J11. rewrite (fe_q _ _ _ _ _ E). now right.
+    + intros i z Hu0 Hi Hz. rewrite (fe_deps t0 Hne). destruct (J7 i z Hu0 Hi Hz) as [(w & Hw1 & Hw2)|Hr]; [left; exists w; split; [now apply fe_U1|auto]|now right].
+    + intros d. rewrite (fe_deps t0 Hne). intros Hd. destruct (J8 d Hd) as [H|(w & Hw1 & Hw2)]; [left; now apply fe_curk1|right; exists w; split; auto; now apply fe_O1].
+    + intros d. rewrite (fe_deps t0 Hne). apply J9.
+    + destruct J10 as (D1 & D2 & D3). rewrite (fe_fintasks _ _ _ _ _ E).
+      assert (Hiff : In t0 rest <-> In t0 (is_fintasks s)) by (rewrite (fe_q _ _ _ _ _ E); split; [now right|intros [H|H]; [congruence|auto]]).
+      repeat split.
+      * intros H. now apply D1, Hiff.
+      * intros H. apply D2. intros H'. now apply H, Hiff.
+      * intros Hp0 H. apply (D3 Hp0). now apply Hiff.
+    + apply N.eqb_neq in Hne. rewrite (fe_fintasks _ _ _ _ _ E). apply N.eqb_neq in Hne. rewrite (fe_res _ _ _ _ _ E t0 Hne). intros Hin. apply J11. rewrite (fe_q _ _ _ _ _ E). now right.
   - destruct T7 as [H|[(k & H)|[H|H]]].
-    + left. now rewrite (fe_inreq _ _ _ _ _ E).
+    + left. rewrite (fe_inreq _ _ _ _ _ E). apply in_or_app. now left.
     + right. left. exists k. now rewrite (proj1 (fe_lists _ _ _ _ _ E k)).
     + destruct (N.eq_dec root t) as [->|Hne]; [right; right; right; apply fe_curk_t|].
       right. right. left. unfold is_in_progress in *. rewrite (fe_kind _ _ _ _ _ E). apply N.eqb_neq in Hne. now rewrite Hne.
@@ -202,6 +228,10 @@ Lemma fe_ti : task_ok2 s t ti.
 Proof. destruct HB as (HT & _). apply (b_task _ _ _ _ _ _ HT t ti (fe_g _ _ _ _ _ E)). Qed.
 Lemma fe_infin : In t (is_fintasks s).
 Proof. rewrite (fe_q _ _ _ _ _ E). now left. Qed.
+Lemma fe_ip k : is_in_progress s k = true -> is_in_progress s' k = true \/ curk s' k.
+Proof.
+  intros H. destruct (N.eq_dec k t) as [->|Hne]; [right; apply fe_curk_t|left]. unfold is_in_progress in *. rewrite (fe_kind _ _ _ _ _ E). apply N.eqb_neq in Hne. now rewrite Hne.
+Qed.
 
 Lemma BC_fin : BC s'.
 Proof.
@@ -218,18 +248,29 @@ Proof.
   - intros k. destruct (N.eq_dec k t) as [->|Hne].
     + intros _. rewrite F5. apply (k2_fsig _ _ _ _ _ _ _ fe_ti fe_infin).
     + rewrite (fe_bAt k Hne), (fe_res _ _ _ _ _ E k Hne). apply C5.
-  - intros k Hi Hb. destruct (N.eq_dec k t) as [->|Hne].
-    + (* the row the finished task leaves behind *)
-      destruct (cvK_some rules env F rank Hrank t) as (v & Hv).
-      pose proof (k2_fin _ _ _ _ _ _ _ fe_ti fe_infin) as Hst. rewrite Hv in Hst.
-      destruct (concl_of_clean s' t v (eq_sym Hv)) as [Hc Ho].
-      { intros y Hy. rewrite fe_deps, fe_stored. split; [now apply Hrec|]. apply (b_cur _ _ _ _ _ _ HT). apply (Hdcur _ (Hrec y Hy)). }
-      exists v. split; [now rewrite fe_stored|]. split; [exact Ho|]. split; [|intros _; exact Hc].
-      rewrite fe_deps. apply (k2_dmen _ _ _ _ _ _ _ fe_ti).
-    + apply (rowok_step rules F s s' k (fe_res _ _ _ _ _ E k Hne)).
-      * intros d _ _ _. left. rewrite fe_stored, fe_cAt. split; auto. lia.
-      * apply C6; [now apply fe_idle|now rewrite <- (fe_bAt k Hne)].
-  - intros k Hc d. rewrite fe_deps. intros Hd. apply fe_curk1. destruct (fe_curk2 k Hc) as [->|H]; [now apply Hdcur|now apply (C7 k H)].
+  - intros k Hi Hb Hnc. assert (Hne : k <> t) by (intros ->; apply Hnc; apply fe_curk_t).
+    apply (rowok_step rules F s s' k (fe_res _ _ _ _ _ E k Hne)).
+    + intros d _ _ _. left. rewrite fe_stored, fe_cAt. split; auto. lia.
+    + apply C6; [now apply fe_idle|now rewrite <- (fe_bAt k Hne)|]. intros H. apply Hnc. now apply fe_curk1.
+  - intros k Hc. unfold cstruct. cbn zeta. destruct (fe_curk2 k Hc) as [->|Hc0].
+    + (* the finished task: everything it asked for is recorded and complete; its discovered dependencies are about to be demanded *)
+      assert (Hreq : map (stored s') (r_req (rules t)) = map cvK (r_req (rules t))).
+      { apply map_ext_in. intros y Hy. rewrite fe_stored. apply (b_cur _ _ _ _ _ _ HT). apply (Hdcur (mkDep y false false)). apply Hrec. apply in_or_app. now left. }
+      rewrite Hreq. change (branch_keys (rules t) (map cvK (r_req (rules t)))) with (bkK t). rewrite fe_deps_t. split; [|split].
+      * intros y Hy. split; [apply in_or_app; left; now apply Hrec|]. apply fe_curk1. apply (Hdcur (mkDep y false false)). now apply Hrec.
+      * intros y Hy. apply in_or_app. right. change (mkDep y false false) with (mkd y). now apply in_map.
+      * intros d Hd. apply in_app_or in Hd. destruct Hd as [Hd|Hd].
+        -- split; [apply in_or_app; left; apply (k2_dmen _ _ _ _ _ _ _ fe_ti d Hd)|left; now apply fe_curk1, Hdcur].
+        -- apply in_map_iff in Hd. destruct Hd as (y & <- & Hy). cbn [mkd d_key]. split; [apply in_or_app; now right|]. right. split; auto. right. now apply fe_dummy.
+    + assert (Hne : k <> t) by (intros ->; destruct Hc0 as [Hk _]; rewrite (fe_k _ _ _ _ _ E) in Hk; discriminate).
+      destruct (C7 k Hc0) as (S1 & S2 & S3). unfold cstruct in S1, S2, S3. cbn zeta in S1, S2, S3.
+      assert (Hreq : map (stored s') (r_req (rules k)) = map (stored s) (r_req (rules k))) by (apply map_ext; intros; apply fe_stored).
+      rewrite Hreq, (fe_deps k Hne). split; [|split].
+      * intros y Hy. destruct (S1 y Hy) as [H1 H2]. split; auto. now apply fe_curk1.
+      * exact S2.
+      * intros d Hd. destruct (S3 d Hd) as [Hm Hst]. split; auto. destruct Hst as [Hcd|(Hdd & [Hp|Hp])]; [left; now apply fe_curk1| |].
+        -- destruct (fe_ip _ Hp) as [H|H]; [right; split; auto|left; exact H].
+        -- right. split; auto. right. destruct Hp as (rq & Hu & H1 & H2). exists rq. split; [now apply fe_U1|auto].
 Qed.
 
 Lemma BS_fin : sreq_scanning s -> BS x s'.
@@ -243,20 +284,21 @@ Proof.
     - rewrite (fe_tasks _ _ _ _ _ E) in Hz. destruct (N.eqb t0 t); [discriminate|]. right. right. eauto. }
   assert (Hne : forall k, kind_of s' k = KScanning \/ kind_of s' k = KDoesNotNeedToRun -> k <> t /\ kind_of s' k = kind_of s k).
   { intros k. rewrite (fe_kind _ _ _ _ _ E). destruct (N.eqb k t) eqn:E0; [intros [H|H]; discriminate|]. apply N.eqb_neq in E0. auto. }
+  assert (Hsnt : forall rq, Sreq s' rq -> sq_rule rq <> t).
+  { intros rq Hrq Heq. pose proof (Hss rq (Hsr rq Hrq)) as Hks. rewrite Heq, (fe_k _ _ _ _ _ E) in Hks. discriminate. }
   constructor.
-  - intros rq Hrq j d Hj. pose proof (Hss rq (Hsr rq Hrq)) as Hks.
-    assert (Hnt : sq_rule rq <> t) by (intros Heq; rewrite Heq, (fe_k _ _ _ _ _ E) in Hks; discriminate).
-    rewrite fe_deps, fe_cAt, (fe_bAt _ Hnt). intros Hn. destruct (S1 rq (Hsr rq Hrq) j d Hj Hn) as [Hc Hf]. split; auto. now apply fe_curk1.
+  - intros rq Hrq j d Hj. pose proof (Hsnt rq Hrq) as Hnt.
+    rewrite (fe_deps _ Hnt), fe_cAt, (fe_bAt _ Hnt). intros Hn. destruct (S1 rq (Hsr rq Hrq) j d Hj Hn) as [Hc Hf]. split; auto. now apply fe_curk1.
   - intros k Hk. destruct (Hne k (or_introl Hk)) as [Hnt Hkk]. rewrite Hkk in Hk. destruct (S2 k Hk) as (B1 & B2 & B3).
     rewrite (fe_bAt k Hnt), (fe_res _ _ _ _ _ E k Hnt). destruct (fe_lists _ _ _ _ _ E k) as (-> & -> & _). auto.
   - intros k Hk. destruct (Hne k (or_intror Hk)) as [Hnt Hkk]. rewrite Hkk in Hk. destruct (S3 k Hk) as ((v & Hv & Hcv & Hco) & Hd & Hb & Hpe).
     split; [|split; [|split]].
-    + exists v. split; [now rewrite fe_stored|]. split; auto. apply (concl_same rules F s s' k v (fe_deps k)); auto. intros y _. apply fe_stored.
-    + intros d. rewrite fe_deps. intros Hin. now apply fe_curk1, Hd.
+    + exists v. split; [now rewrite fe_stored|]. split; auto. apply (concl_same rules F s s' k v (fe_deps k Hnt)); auto. intros y _. apply fe_stored.
+    + intros d. rewrite (fe_deps k Hnt). intros Hin. now apply fe_curk1, Hd.
     + now rewrite (fe_bAt k Hnt).
     + destruct Hpe as [(rq & H1 & H2)|(rq & H1 & H2)]; [left; exists rq; rewrite (fe_toscan _ _ _ _ _ E); split; auto; apply in_or_app; now right|].
-      right. exists rq. now rewrite (fe_inreq _ _ _ _ _ E).
-  - intros rq Hrq i d. rewrite fe_deps. apply (S4 rq (Hsr rq Hrq)).
+      right. exists rq. rewrite (fe_inreq _ _ _ _ _ E). split; auto. apply in_or_app. now left.
+  - intros rq Hrq i d. rewrite (fe_deps _ (Hsnt rq Hrq)). apply (S4 rq (Hsr rq Hrq)).
 Qed.
 End FinEff.
 
